@@ -1,3 +1,3 @@
-import Driver.Loop
-/-! Driver for group `checker`: replace `[]` by this group's handlers. -/
-def main : IO Unit := TF.Driver.run []
+import Driver.Checker
+/-! Driver for group `checker` (C25). -/
+def main : IO Unit := TF.Driver.run [TF.Driver.handleChecker]
